@@ -309,20 +309,42 @@ pub fn dce(
                 .collect_vec();
 
             for pred in block.pred_iter(context).cloned().collect_vec() {
-                let params = pred
-                    .get_succ_params_mut(context, &block)
-                    .expect("Invalid IR");
-                let mut index = 0;
+                // A conditional branch can reach `block` through both of its edges.
+                let edges_params: Vec<&mut Vec<Value>> = match pred.get_terminator_mut(context) {
+                    Some(Instruction {
+                        op:
+                            InstOp::ConditionalBranch {
+                                true_block,
+                                false_block,
+                                ..
+                            },
+                        ..
+                    }) => [true_block, false_block]
+                        .into_iter()
+                        .filter(|edge| edge.block == block)
+                        .map(|edge| &mut edge.args)
+                        .collect(),
+                    Some(Instruction {
+                        op: InstOp::Branch(to_block),
+                        ..
+                    }) if to_block.block == block => vec![&mut to_block.args],
+                    _ => vec![],
+                };
+                assert!(!edges_params.is_empty(), "Invalid IR");
 
-                // Remove parameters passed to a dead argument.
-                let params_len_before = params.len();
-                params.retain(|_| {
-                    let retain = !dead_args[index];
-                    index += 1;
-                    retain
-                });
-                let params_len_after = params.len();
-                modified |= params_len_before != params_len_after;
+                for params in edges_params {
+                    let mut index = 0;
+
+                    // Remove parameters passed to a dead argument.
+                    let params_len_before = params.len();
+                    params.retain(|_| {
+                        let retain = !dead_args[index];
+                        index += 1;
+                        retain
+                    });
+                    let params_len_after = params.len();
+                    modified |= params_len_before != params_len_after;
+                }
             }
 
             // Remove the dead argument itself.
